@@ -23,7 +23,7 @@ MANIFEST_TEXT = ("Lean 4 theorems in three layers. (1) Over an arbitrary linearl
                  "(exhaustively in the thorough tier, round/trunc also with unsigned char / signed char / unsigned targets), integer helpers over every representable "
                  "argument pair above small cut-offs. Round four: the rounding-style dispatch of round_t / trunc_t (towardZero / towardInf: test of val against T(0), the two specialisations forwarded to) "
                  "and the component loops of the vector overloads of round / trunc (std::vector, FieldVector: loop bounds, specialisation called, styles and epsilon passed on, the helper each vector "
-                 "specialisation derives from) are regenerated from float_cmp.cc as well; theorems: the model's round/trunc/roundM/truncM are Dispatch.run of the regenerated tables "
+                 "specialisation derives from) and the vector comparisons eq_t_std_vec / eq_t_fvec (size test, loop, component call, derivation table; vec_eq_tied) are regenerated from float_cmp.cc as well; theorems: the model's round/trunc/roundM/truncM are Dispatch.run of the regenerated tables "
                  "(round_dispatch_tied ...), the regenerated vector overloads are the component-wise maps of the scalar functions for every length and scalar type (vec_round_trunc_eq_map), hence every "
                  "component of a vector result obeys the distance/direction laws (vec_round_within, vec_trunc_within) and the machine-integer versions agree with the mathematical ones when no component "
                  "wraps (vec_roundM_truncM_eq). The vector overloads are instantiated by the harness (float/double/long double x int, unsigned char, short, unsigned long; std::vector sizes 0..7, "
@@ -71,7 +71,7 @@ def probe_vector_round_trunc(repo):
     return []
 
 
-TRANSLATORS = [tr_c17.translate, tr_c17.translate_rt, tr_c17.translate_vec, probe_vector_round_trunc]
+TRANSLATORS = [tr_c17.translate, tr_c17.translate_rt, tr_c17.translate_eqvec, tr_c17.translate_vec, probe_vector_round_trunc]
 RULE = ("cases: cmp/cmpv (float,double x 3 styles; operand pairs placed on/next to the tolerance threshold, equal, opposite, zero; epsilons 0, <1, 1, >1), "
         "round/trunc (4 rounding styles x signed/unsigned char/short/int/long targets; arguments at integers, halves, tie boundaries, distance epsilon from an integer, (-1,0] for unsigned targets, around the largest / smallest value of the unsigned and narrow types), "
         "fvround/fvtrunc (round / trunc of std::vector (0..7 components) and FieldVector (1,2,3,5) to vectors of int / unsigned char / short / unsigned long: components drawn from the scalar "
@@ -82,7 +82,7 @@ RULE = ("cases: cmp/cmpv (float,double x 3 styles; operand pairs placed on/next 
         "and documented defaults (static, defeps); distinct = distinct op lines; non-trivial = the oracle decided a law/definition on a call of the real code (skip/unrep lines, "
         "documented-unsupported negative integer exponents and unsigned targets whose documented result is -1 are trivial)")
 ASSUMPTIONS = [
-    "the formulas of eq/ne/lt/gt/le/ge, the default epsilons (float, double, long double, minifloat), the towardZero/towardInf dispatch of round_t/trunc_t and the component loops + derived specialisations of the vector overloads of round/trunc are regenerated from float_cmp.cc by tools/translators/tr_c17.py (Gen/C17.lean, Gen/C17RT.lean, Gen/C17Vec.lean); the compare-style dispatch, the vector loops of eq, the bodies of round/trunc downward/upward and the integer helpers in lean/DuneVerif/Model/C17.lean are hand-written and tied by this differential run",
+    "the formulas of eq/ne/lt/gt/le/ge, the default epsilons (float, double, long double, minifloat), the towardZero/towardInf dispatch of round_t/trunc_t and the component loops + derived specialisations of the vector overloads of round/trunc are regenerated from float_cmp.cc by tools/translators/tr_c17.py (Gen/C17.lean, Gen/C17RT.lean, Gen/C17Vec.lean), and so are the size test, component loops and derived specialisations of the vector comparisons (Gen/C17EqVec.lean, tied to the model's eqVec / eqFV by vec_eq_tied; the driver prints `eq` of vectors from the regenerated functions); the compare-style dispatch of the scalar eq_t, std::vector's operator<, the bodies of round/trunc downward/upward and the integer helpers in lean/DuneVerif/Model/C17.lean are hand-written and tied by this differential run",
     "ops fvround/fvtrunc: every component is in the domain of the scalar op (otherwise the case is skipped); the oracle is the scalar oracle per component plus equality of every component of the vector result (all overloads, FloatCmpOps<vector type>) with the scalar call; components whose documented result is not a value of the target type print `unrep` on both sides as for ftrunc",
     "ops cmp/cmpv/round/trunc: operands are dyadic with few significant bits (f32: 12 bits in a 2^+-11 window, f64: 26 bits in a 2^+-26 window) so that every C++ intermediate is exact; the harness re-checks that with GMP; the model side is evaluated over the rationals",
     "ops fcmp/fcmpv/fround/ftrunc: arbitrary finite values; float/double/long double arithmetic of the machine is IEEE 754 round-to-nearest-even (binary32, binary64, x87 extended), which the Lean type FP f models; int<->float conversions round to nearest / truncate",
